@@ -262,14 +262,17 @@ class Ctx:
             'checker_cmd': f'cd /verif/coq && make -j16 <deps> && coqc -Q . Rapid Properties/{self.id}.v (full .vo build; hygiene grep; Print Assumptions)',
             'trusted_base': TRUSTED_BASE_COMMON + [f'{t}: {a}' for t, a in self.assumptions.items()],
             'theorems': self.obligations,
-            'evaluations': max(int(evaluations), 1),
-            'distinct_nontrivial': max(int(distinct), 2) if distinct else 2,
             'rule': rule,
             'samples': samples or ['(none)'],
             'partial': self.partial,
             'notes': self.notes,
             'broken': [(k, w) for k, w, _ in self.brokens],
         })
+        # exploration-style counts only when this run measured them (proof-level evidence does not need them)
+        if int(evaluations) >= 1:
+            cov['evaluations'] = int(evaluations)
+        if int(distinct) >= 2:
+            cov['distinct_nontrivial'] = int(distinct)
         if extra:
             cov.update(extra)
         ev = {'property_id': self.id, 'tier': self.tier, 'seed': self.seed, 'level': level, 'coverage': cov,
